@@ -50,8 +50,13 @@ impl PendingTxs {
     }
 
     pub fn push(&mut self, tx: TransactionView, cycles: Cycle) {
-        self.txs
-            .insert(tx.hash(), (tx.data(), cycles, HashSet::new()));
+        // A transaction which is submitted again keeps the peers it has been announced to.
+        let peers = self
+            .txs
+            .remove(&tx.hash())
+            .map(|(_, _, peers)| peers)
+            .unwrap_or_default();
+        self.txs.insert(tx.hash(), (tx.data(), cycles, peers));
         if self.txs.len() > self.limit {
             self.txs.pop_front();
         }
